@@ -146,9 +146,26 @@ async fn run_async(ctx: &mut Ctx) {
         }
         let id = *ctx.tape.pick(&universe);
         let nid = peer_id(id);
-        let action = ctx.tape.choose(12);
+        let action = ctx.tape.choose(13);
         let mut user_add_now: Option<[u8; 32]> = None;
+        let mut unauthenticated_query: Option<([u8; 32], Option<String>)> = None;
         match action {
+            12 => {
+                // an undecryptable packet claiming to come from node `id` arrives from some address (its own or
+                // another one): the handler asks the service who that is. Nothing has been proven by anybody,
+                // so the table entry of `id` (record, connection state) must not change.
+                let before = sw.d.table_entries().into_iter().find(|(n, _, _)| *n == nid).map(|(_, e, s)| format!("seq {} {s:?}", e.seq()));
+                let from = if ctx.tape.choose(2) == 0 { peer_addr(id) } else { std::net::SocketAddr::new(std::net::IpAddr::V4(Ipv4Addr::new(203, 0, 113, 1 + ctx.tape.choose(3) as u8)), 4000 + ctx.tape.choose(3) as u16) };
+                let from = match (mode, from) {
+                    (Mode::V6, std::net::SocketAddr::V4(a)) => std::net::SocketAddr::new(std::net::IpAddr::V6(std::net::Ipv6Addr::new(0x2001, 0xdb8, 0, 0, 0, 0, a.ip().octets()[2] as u16, a.ip().octets()[3] as u16)), a.port()),
+                    (_, a) => a,
+                };
+                ctx.fault("unauthenticated_whoareyou_query");
+                ctx.ev(format!("t={} WhoAreYou query for #{id} from {from}", now_ms()));
+                let wref = discv5::verif::WhoAreYouRef::verif_new(discv5::verif::NodeAddress { node_id: nid, socket_addr: from }, [7u8; 12]);
+                sw.emit(HandlerOut::WhoAreYou(wref)).await;
+                unauthenticated_query = Some((nid.raw(), before));
+            }
             0..=3 => {
                 // session established (the handler only reports records whose address is absent or equals the source)
                 // like the real handler: the reported record is the newer of (attached, the one the
@@ -287,6 +304,17 @@ async fn run_async(ctx: &mut Ctx) {
         let _ = sw.take_events();
         // ---- the table after this step
         let entries = sw.d.table_entries();
+        if let Some((qid, before)) = &unauthenticated_query {
+            let after = entries.iter().find(|(n, _, _)| n.raw() == *qid).map(|(_, e, s)| format!("seq {} {s:?}", e.seq()));
+            ctx.count("unauthenticated_queries_checked");
+            if *before != after {
+                ctx.fail(
+                    "c01.table-entry-changed-by-unauthenticated-packet",
+                    format!("a who-are-you query (an undecryptable packet, nothing proven) changed the routing-table entry of the claimed node from {before:?} to {after:?}"),
+                    &[],
+                );
+            }
+        }
         ctx.count("table_snapshots_checked");
         let mut now_table: BTreeMap<[u8; 32], Enr> = BTreeMap::new();
         for (nid2, enr, _status) in &entries {
